@@ -672,7 +672,14 @@ func (c *Codec) Decode(src []byte) (dst framer.Frame, err error) {
 // DecodeStream decodes a frame from the given io reader.
 func (c *Codec) DecodeStream(reader io.Reader) (framer.Frame, error) {
 	c.processUpdates()
-	c.panicIfNotUpdated("Decode")
+	// The bytes come from a peer: a message that arrives before the codec has been
+	// given a channel set is invalid input, not a programming error.
+	if c.mu.seqNum < 1 {
+		return framer.Frame{}, errors.Wrap(
+			validate.ErrValidation,
+			"[framer.codec] - cannot decode a frame before the codec has received its channel keys",
+		)
+	}
 	c.reader.Reset(reader)
 
 	var (
